@@ -23,7 +23,7 @@ def classOfPure : String → Class
 def classOfKind (kind : String) (opened : Bool) : Class :=
   if opened then .skipped else
   match kind with
-  | "ok" => .serving | "refuse" => .connFail | "reset0" => .connFail | _ => .other
+  | "ok" => .serving | "refuse" => .connFail | "reset0" => .connFail | "dnsfail" => .connFail | _ => .other
 
 /-- Selection oracle "first of the preference order that is still available". -/
 def selectPref (pref : List Nat) (avail : List Nat) : Option Nat := pref.find? (avail.contains ·)
@@ -122,7 +122,7 @@ def handleStack (case : Nat) (j : Json) : IO Unit := do
   let cands := candidates eps
   let runWith := fun (sel : List Nat → Option Nat) =>
     let (tr, res) := execute sel (outcomeOfIn (jstr (jget sc "engine")) (jnat (jget sc "read_timeout_ms")) eps) cands
-    let mOrder := (contactedList tr).filter (fun i => (eps.find? (·.idx == i)).map (·.kind) != some "refuse")
+    let mOrder := (contactedList tr).filter (fun i => !((eps.find? (·.idx == i)).map (·.kind) == some "refuse" || (eps.find? (·.idx == i)).map (·.kind) == some "dnsfail"))
     (mOrder, Olla.Driver.C06.sortNat (offlineList tr), match res with | .served e => some e | _ => none)
   let implTriple := (order, Olla.Driver.C06.sortNat implOffline, servedBy)
   let possible := if balancer == "priority" then [runWith (selectPrio eps)] else (perms cands).map (fun p => runWith (selectPref p))
